@@ -87,3 +87,111 @@ def occ (s : PState) (x : Nat) : Nat := s.pool.count x + (live s).count x
 def Inv (s : PState) : Prop := ∀ x, occ s x ≤ 1 ∧ (0 < occ s x → x < s.fresh)
 
 end KV.Model.Pool
+
+/-!
+## Pools and configuration
+
+A pooled object may keep options it was constructed with (`gzip.NewWriterLevel(w, level)`,
+`zstd.WithEncoderLevel`): `baked`.  `acquire key cfg reuse reapply`: a wrapper for configuration `cfg` takes an object
+from the pool named `key` (or constructs one, baking `cfg`); `reapply` = the options are assigned again after Get
+(snappy: `x.framed`, `x.encode`).  `close h` puts the object back into the pool it was taken from.
+The code is faithful to a POLICY when for every acquire `key = cfg ∨ reapply` — the pool key includes every option a
+pooled object keeps — which is the regenerated fact `gen_pool_keys` (pool owned by the Codec value, or options re-applied).
+-/
+namespace KV.Model.CfgPool
+
+structure Obj where
+  id : Nat
+  baked : Nat
+  deriving DecidableEq, Repr
+
+structure Handle where
+  key : Nat
+  cfg : Nat
+  obj : Obj
+  deriving DecidableEq, Repr
+
+structure St where
+  pool : List (Nat × Obj)
+  handles : List Handle
+  fresh : Nat
+  deriving DecidableEq, Repr
+
+inductive Ev where
+  | acquire (key cfg : Nat) (reuse reapply : Bool)
+  | close (h : Nat)
+  deriving DecidableEq, Repr
+
+def init : St := ⟨[], [], 0⟩
+
+def takeKey (key : Nat) : List (Nat × Obj) → Option (Obj × List (Nat × Obj))
+  | [] => none
+  | (k, o) :: rest =>
+    if k = key then some (o, rest)
+    else match takeKey key rest with
+      | some (o', rest') => some (o', (k, o) :: rest')
+      | none => none
+
+def step (s : St) : Ev → Option St
+  | .acquire key cfg reuse reapply =>
+    let fromPool := if reuse then takeKey key s.pool else none
+    match fromPool with
+    | some (o, rest) =>
+      let o' := if reapply then { o with baked := cfg } else o
+      some { s with pool := rest, handles := s.handles ++ [⟨key, cfg, o'⟩] }
+    | none => some { s with handles := s.handles ++ [⟨key, cfg, ⟨s.fresh, cfg⟩⟩], fresh := s.fresh + 1 }
+  | .close h =>
+    match s.handles[h]? with
+    | none => none
+    | some hd => some { s with handles := s.handles.eraseIdx h, pool := (hd.key, hd.obj) :: s.pool }
+
+def run (s : St) : List Ev → Option St
+  | [] => some s
+  | e :: es => match step s e with
+    | none => none
+    | some s' => run s' es
+
+/-- the policy of a pool: either every user re-applies its options after Get (`reapplies key`), or the pool belongs
+to one configuration (`cfg = key`) -/
+def policyEv (reapplies : Nat → Bool) : Ev → Bool
+  | .acquire key cfg _ reapply => (reapply == reapplies key) && (reapplies key || key == cfg)
+  | .close _ => true
+
+def policy (reapplies : Nat → Bool) (es : List Ev) : Bool := es.all (policyEv reapplies)
+
+/-- every wrapper works with an object configured as requested; objects that are not re-configured at Get sit in
+the pool of their own configuration -/
+def Inv (reapplies : Nat → Bool) (s : St) : Prop :=
+  (∀ hd ∈ s.handles, hd.obj.baked = hd.cfg ∧ (reapplies hd.key = false → hd.cfg = hd.key)) ∧
+  (∀ e ∈ s.pool, reapplies e.1 = false → e.2.baked = e.1)
+
+end KV.Model.CfgPool
+
+/-!
+## Wrappers around library objects (gzip, lz4, zstd)
+
+compress/{gzip,lz4,zstd} only pool and `Reset` objects of third-party libraries.  `Lib` abstracts such an object:
+its state, `fresh cfg`, `reset` and `run` (one whole stream: all Write/Read calls up to Close/EOF, the result may be
+an error).  `ResetContract` is what the wrappers rely on — documented by the libraries, not verified here: a reset
+object behaves like a fresh one of its configuration, whatever it processed before, also after a failed stream.
+-/
+namespace KV.Model.LibWrapper
+
+structure Lib (σ ι ω : Type) where
+  fresh : Nat → σ
+  reset : σ → σ
+  run : σ → ι → ω × σ
+
+structure ResetContract {σ ι ω : Type} (L : Lib σ ι ω) (cfgOf : σ → Nat) : Prop where
+  cfg_fresh : ∀ c, cfgOf (L.fresh c) = c
+  cfg_reset : ∀ s, cfgOf (L.reset s) = cfgOf s
+  cfg_run : ∀ s i, cfgOf (L.run s i).2 = cfgOf s
+  reset_fresh : ∀ s i, (L.run (L.reset s) i).1 = (L.run (L.fresh (cfgOf s)) i).1
+
+/-- one use of a pooled object by a wrapper: `NewWriter/NewReader` (Reset), the stream, `Close` (Reset), Put -/
+def useOnce {σ ι ω : Type} (L : Lib σ ι ω) (s : σ) (i : ι) : σ := L.reset (L.run (L.reset s) i).2
+
+/-- the object after a history of streams -/
+def after {σ ι ω : Type} (L : Lib σ ι ω) (s : σ) (history : List ι) : σ := history.foldl (useOnce L) s
+
+end KV.Model.LibWrapper
